@@ -132,7 +132,8 @@ def run(repo, package, harnesses, jobs=8, timeout=3600, playback=False, verif_di
     if re.search(r"^error(\[E\d+\])?:", out, re.M) and "Checking harness" not in out:
         errs = re.findall(r"^error(?:\[E\d+\])?: .*(?:\n\s+-->.*)?", out, re.M)
         info["compile_error"] = "\n".join(errs[:8])[:3000] or out[-2000:]
-    results, stubs = parse(_filter(out), harnesses)
+    results, _ = parse(_filter(out), harnesses)
+    stubs = sorted(set(re.findall(r"^\s*- Stub: (.*)$", out, re.M)))
     info["stubs"] = stubs
     for h, r in results.items():
         if r["status"] == "FAILED":
@@ -173,6 +174,16 @@ def playback_native(repo, package, module_rel, harness_mod, tests, timeout=3600)
     cmd = ["cargo", "kani", "playback", "-Z", "concrete-playback", "-p", package, "--lib", "--",
            "kani_concrete_playback"]
     pr = subprocess.run(cmd, cwd=repo, env=_env(tmp), capture_output=True, text=True, timeout=timeout)
-    out = _filter(pr.stdout + "\n" + pr.stderr)
+    both = pr.stdout + "\n" + pr.stderr
+    keep = []
+    lines = both.split("\n")
+    for i, ln in enumerate(lines):
+        if "panicked at" in ln:
+            keep += lines[i:i + 3]
+        elif re.match(r"^(test |running \d+ test|test result:|failures:|    \S+::kani_concrete_playback)", ln):
+            keep.append(ln)
+        elif re.match(r"^error(\[E\d+\])?:", ln):
+            keep += lines[i:i + 6]
+    out = "\n".join(keep)
     shutil.rmtree(tmp, ignore_errors=True)
     return pr.returncode, out
